@@ -76,6 +76,7 @@ type Exec struct {
 	epochAlloc map[int]string
 	specHook   func(term, famSym string)
 	curBinders []string
+	vacSeq     int
 	macros     map[string]bool
 	loopEffects map[*ssa.BasicBlock]*effects
 	entryMods  *modSet
